@@ -122,29 +122,47 @@ def parse_output(text, sc, prog, fields):
         g0, g1 = lines.index("GEOM"), lines.index("ENDGEOM")
         return out, lines[g0 + 1:g1]
     if prog == "gaussian":
-        head = lines[0]
-        assert head.startswith("#n ")
-        rest = head[3:]
+        # by the grammar of a Gaussian input, not by line numbers: Link 0 lines (%...), the route section (# ...) up to a blank
+        # line, the title section up to a blank line, the charge / multiplicity line, one line per atom up to a blank line
+        k = 0
+        while k < len(lines) and not lines[k].lstrip().startswith("#"):
+            k += 1
+        route = []
+        while k < len(lines) and lines[k].strip():
+            route.append(lines[k].strip())
+            k += 1
+        head = " ".join(route)
+        rest = head.split(" ", 1)[1] if " " in head else ""          # after '#', '#n', '#p', '#t'
         lotbasis, run = rest.rsplit(" ", 1)
         # lot and basis are joined by '/': both sides are known not to contain '/'
         out["lot"], out["obasis_name"] = lotbasis.split("/", 1)
         out["run_type"] = run
-        out["title"] = lines[2]
-        out["charge"], out["spinmult"] = lines[4].split()
-        geom = lines[5:]
-        while geom and geom[-1] == "":
-            geom.pop()
+        k += 1
+        title = []
+        while k < len(lines) and lines[k].strip():
+            title.append(lines[k])
+            k += 1
+        out["title"] = "\n".join(title)
+        while k < len(lines) and not lines[k].strip():       # the blank line that ends the title section (an empty title is one more)
+            k += 1
+        out["charge"], out["spinmult"] = lines[k].split()
+        geom = []
+        k += 1
+        while k < len(lines) and lines[k].strip():
+            geom.append(lines[k])
+            k += 1
         return out, geom
-    head = lines[0]
-    assert head.startswith("! ")
-    toks = head[2:].split(" ")
+    # ORCA: the keyword line (! ...), comment lines (# ...), the coordinate block '* xyz charge mult' ... '*'
+    head = next(ln for ln in lines if ln.lstrip().startswith("!"))
+    toks = head.lstrip()[1:].strip().split(" ")
     out["lot"], out["obasis_name"], out["run_type"] = toks[0], toks[1], " ".join(toks[2:])
-    out["title"] = lines[1][2:]
-    w = lines[2].split()
+    comments = [ln for ln in lines if ln.startswith("#")]
+    out["title"] = comments[0][2:] if comments else "<missing>"
+    b0 = next(i for i, ln in enumerate(lines) if ln.lstrip().startswith("*") and "xyz" in ln.lower())
+    w = lines[b0].replace("*", " ").split()
     out["charge"], out["spinmult"] = w[1], w[2]
-    geom = lines[3:]
-    assert geom[-1] == "*"
-    return out, geom[:-1]
+    b1 = next(i for i in range(b0 + 1, len(lines)) if lines[i].strip() == "*")
+    return out, lines[b0 + 1:b1]
 
 
 def run_scenario(task):
